@@ -472,55 +472,79 @@ def external_sector_guards(prog, check, rule):
     from ..dataflow import truth_search, trace
     n_sites = 0
     funcs = [fn for fn in prog.all_functions() if not fn.module.rel.endswith('external.py')]
+    sites = set(FX_SITES)
+    promoted = {}           # private helper name -> key: an unguarded booking inside it is judged at its call sites
 
     def site_calls(node):
-        return [n for n in ast.walk(node) if isinstance(n, ast.Call) and call_name(n) in FX_SITES]
-    flats = {}
-    for fn in funcs:
-        fl = flatten(prog, fn)
-        if site_calls(fl.node):
-            flats[fn.key] = (fn, fl)
-    # private helpers judged at their callers
-    inlined_somewhere = set()
-    for fn, fl in flats.values():
-        inlined_somewhere.update(getattr(fl, 'inlined', ()))
-    skip = set()
-    for key, (fn, fl) in flats.items():
-        if key in inlined_somewhere and fn.name.startswith('_'):
-            textual = 0
-            covered = 0
-            for other in funcs:
-                k = sum(1 for c in ast.walk(other.node) if isinstance(c, ast.Call) and call_name(c) == fn.name)
-                if k:
-                    textual += k
-                    ofl = flatten(prog, other)
-                    if fn.key in getattr(ofl, 'inlined', ()) and not any(
-                            isinstance(c, ast.Call) and call_name(c) == fn.name for c in ast.walk(ofl.node)):
-                        covered += k
-            if textual and textual == covered:
-                skip.add(key)
-    for key, (fn, fl) in sorted(flats.items()):
-        if key in skip:
+        return [n for n in ast.walk(node) if isinstance(n, ast.Call) and call_name(n) in sites]
+
+    def judge():
+        flats = {}
+        for fn in funcs:
+            fl = flatten(prog, fn)
+            if site_calls(fl.node):
+                flats[fn.key] = (fn, fl)
+        # private helpers judged at their callers
+        inlined_somewhere = set()
+        for fn, fl in flats.values():
+            inlined_somewhere.update(getattr(fl, 'inlined', ()))
+        skip = set()
+        for key, (fn, fl) in flats.items():
+            if key in inlined_somewhere and fn.name.startswith('_'):
+                textual = 0
+                covered = 0
+                for other in funcs:
+                    k = sum(1 for c in ast.walk(other.node) if isinstance(c, ast.Call) and call_name(c) == fn.name)
+                    if k:
+                        textual += k
+                        ofl = flatten(prog, other)
+                        if fn.key in getattr(ofl, 'inlined', ()) and not any(
+                                isinstance(c, ast.Call) and call_name(c) == fn.name for c in ast.walk(ofl.node)):
+                            covered += k
+                if textual and textual == covered:
+                    skip.add(key)
+        results = []
+        for key, (fn, fl) in sorted(flats.items()):
+            if key in skip:
+                continue
+            g = cfgmod.build(fl)
+            site_nodes = {}
+            for nd in g.stmt_nodes():
+                cs = [c for c in site_calls(nd.ast)] if nd.kind in ('stmt', 'test', 'for', 'with') and nd.ast is not None else []
+                if nd.kind == 'for':
+                    cs = site_calls(nd.ast.iter)
+                if cs:
+                    site_nodes[nd.id] = cs
+            hits, seen = truth_search(g, [g.entry], list(site_nodes), env0={'*.ExternalSector': (False, 'NONE')})
+            for nid, cs in sorted(site_nodes.items()):
+                for c in cs:
+                    results.append((fn, c, nid not in hits, (','.join(str(x) for x in trace(seen, hits[nid], g))) if nid in hits else ''))
+        return results
+
+    for _round in range(4):
+        results = judge()
+        new = False
+        for fn, c, ok, tr in results:
+            if ok or fn.name in sites or not (fn.name.startswith('_') and not fn.name.startswith('__')):
+                continue
+            # a private helper that books without testing: every call of it elsewhere in the package becomes a booking site
+            callers = [o for o in funcs if o.key != fn.key and any(isinstance(x, ast.Call) and call_name(x) == fn.name for x in ast.walk(o.node))]
+            same_name = [o for o in prog.all_functions() if o.name == fn.name and o.key != fn.key]
+            if callers and not same_name:
+                sites.add(fn.name)
+                promoted[fn.name] = fn.key
+                new = True
+        if not new:
+            break
+    for fn, c, ok, tr in results:
+        if fn.name in promoted and promoted[fn.name] == fn.key and call_name(c) in sites and not ok:
             continue
         check.saw(fn)
-        g = cfgmod.build(fl)
-        site_nodes = {}
-        for nd in g.stmt_nodes():
-            cs = [c for c in site_calls(nd.ast)] if nd.kind in ('stmt', 'test', 'for', 'with') and nd.ast is not None else []
-            if nd.kind == 'for':
-                cs = site_calls(nd.ast.iter)
-            if cs:
-                site_nodes[nd.id] = cs
-        hits, seen = truth_search(g, [g.entry], list(site_nodes), env0={'*.ExternalSector': (False, 'NONE')})
-        for nid, cs in sorted(site_nodes.items()):
-            for c in cs:
-                ok = nid not in hits
-                n_sites += 1
-                check.ob(rule, '%s::external-guard(%s)' % (fn.key, call_name(c)), ok, '%s:%d' % (fn.module.rel, c.lineno),
-                         'not reachable when the model has no external sector (an error is raised first)' if ok else
-                         'cross-currency booking reachable when the model has no external sector (lines %s)' % (
-                             ','.join(str(x) for x in trace(seen, hits[nid], g))),
-                         'a cross-currency flow / supplier in a model without ExternalSector')
+        n_sites += 1
+        check.ob(rule, '%s::external-guard(%s)' % (fn.key, call_name(c)), ok, '%s:%d' % (fn.module.rel, c.lineno),
+                 'not reachable when the model has no external sector (an error is raised first)' if ok else
+                 'cross-currency booking reachable when the model has no external sector (lines %s)' % tr,
+                 'a cross-currency flow / supplier in a model without ExternalSector')
     return n_sites
 
 
